@@ -216,6 +216,8 @@ def classify(fn, src, pm):
                 if INT_RE.match(t):
                     return Consumer("ok", "integer %s" % name, par, "->".join(chain))
                 return Consumer("order", "floating-point/unknown-type `%s` (%s) accumulates in iteration order" % (name, t), par, "->".join(chain))
+            if name in ("fold", "reduce") and _fold_total_selection(fn, par):
+                return Consumer("ok", "`%s` keeps one of its two operands under %s" % (name, _fold_total_selection(fn, par)), par, "->".join(chain))
             if name in ("fold", "reduce", "try_fold", "scan"):
                 return Consumer("order", "`%s` accumulates in iteration order" % name, par, "->".join(chain))
             if name == "for_each":
@@ -308,9 +310,11 @@ def follow_collection(fn, node, pm, chain):
             if par["name"] in ("len", "is_empty", "contains"):
                 return Consumer("ok", "only `%s` of the sequence is used" % par["name"], par, chain)
             if par["name"] == "next" and not par["args"]:
-                nm = _seeds_total_incumbent(fn, par, pm)
+                nm = _seeds_total_incumbent(fn, par, pm) or _seeds_total_fold(fn, par, pm)
                 if nm:
                     return Consumer("ok", "the first element only seeds an incumbent that is replaced under the total predicate `%s`" % nm, par, chain)
+            if par["name"] in ("fold", "reduce") and _fold_total_selection(fn, par):
+                return Consumer("ok", "`%s` keeps one of its two operands under %s" % (par["name"], _fold_total_selection(fn, par)), par, chain)
             return Consumer("order", "sequence in hash order is consumed by `%s`" % par["name"], par, chain)
         if k in ("Ret", "Closure"):
             return Consumer("derived", "sequence in iteration order is returned", par, chain)
@@ -324,6 +328,90 @@ def follow_collection(fn, node, pm, chain):
         if k in ("Tup", "Struct", "Array"):
             return Consumer("derived", "sequence in iteration order is stored in the result", par, chain)
         return Consumer("unclassified", "sequence flows into `%s`" % k, par, chain)
+
+
+def _fold_total_selection(fn, call):
+    """`fold(seed, |inc, cand| match cmp(&inc, &cand) { .. => inc, .. => cand })` / `reduce(|a, b| ..)`: the result is the
+    extremum under `cmp`; when `cmp` is total on the entries (falls back on the unique key) it does not depend on the order
+    in which the entries arrive.  Returns a description of the comparator, or None."""
+    c = fn["crate"]
+    if call.get("name") not in ("fold", "reduce") or not call.get("args"):
+        return None
+    clo = strip(call["args"][-1])
+    if clo.get("k") != "Closure" or len(clo["params"]) != 2:
+        return None
+    pids = []
+    for p in clo["params"]:
+        b = list(pat_bindings(p))
+        if p.get("k") != "Bind" or len(b) != 1:
+            return None
+        pids.append(b[0]["local"])
+
+    def tail(e):
+        e = strip(e)
+        while e.get("k") == "Block" and not e["stmts"] and e.get("e") is not None:
+            e = strip(e["e"])
+        return e
+    body = tail(clo["body"])
+    if body.get("k") == "Match" and body.get("src", "Normal") == "Normal":
+        results, scrut = [a["body"] for a in body["arms"]], body["scrut"]
+    elif body.get("k") == "If" and body.get("else") is not None:
+        results, scrut = [body["then"], body["else"]], body["c"]
+    else:
+        return None
+    got = set()
+    for r_ in results:
+        r_ = peel_refs(tail(r_))
+        if r_.get("k") != "Path" or r_.get("local") not in pids:
+            return None
+        got.add(r_["local"])
+    if got != set(pids):
+        return None
+    for y in walk(scrut):
+        if y.get("k") == "Call" and strip(y["f"]).get("k") == "Path" and "local" in strip(y["f"]) and len(y["args"]) == 2 \
+                and sorted(str(peel_refs(a).get("local")) for a in y["args"]) == sorted(str(x) for x in pids):
+            lid = strip(y["f"])["local"]
+            for z in walk(fn["body"]):
+                if z.get("k") == "LetStmt" and z["pat"].get("k") == "Bind" and z["pat"]["local"] == lid and z.get("init") is not None and strip(z["init"]).get("k") == "Closure":
+                    if extremum_is_total({"name": "max_by", "args": [strip(z["init"])]}, c):
+                        return "the total comparator `%s`" % z["pat"]["name"]
+            return None
+    if extremum_is_total({"name": "max_by", "args": [{"k": "Closure", "params": clo["params"], "body": scrut}]}, c):
+        return "a total inline comparison"
+    return None
+
+
+def _seeds_total_fold(fn, nxt, pm):
+    """`let first = it.next().unwrap(); it.fold(first, <total selection>)`"""
+    cur = nxt
+    while True:
+        par = pm.get(id(cur))
+        if par is None:
+            return None
+        if par.get("k") == "MethodCall" and par["recv"] is cur and par["name"] in ("unwrap", "expect", "cloned", "copied"):
+            cur = par
+            continue
+        if par.get("k") in ("Ref",):
+            cur = par
+            continue
+        break
+    if par.get("k") != "LetStmt" or par["pat"].get("k") != "Bind":
+        return None
+    lid = par["pat"]["local"]
+    uses = [y for y in walk(fn["body"]) if y.get("k") == "Path" and y.get("local") == lid]
+    if not uses:
+        return None
+    how = None
+    for u in uses:
+        v, p = u, pm.get(id(u))
+        while p is not None and p.get("k") in ("Ref",):
+            v, p = p, pm.get(id(p))
+        if p is None or p.get("k") != "MethodCall" or p["name"] != "fold" or not p["args"] or p["args"][0] is not v:
+            return None
+        how = _fold_total_selection(fn, p)
+        if not how:
+            return None
+    return how
 
 
 def _seeds_total_incumbent(fn, nxt, pm):
